@@ -272,6 +272,10 @@ def oracle(c, o):
         return "detected encoding %s, the first that decodes the whole file is %s" % (encs[o["open"][1][0]], encs[first])
     if o["open"][0] != "ok":
         return None if o["exc"] is not None and files == before else "open failed (%s) but mutate did not fail cleanly" % o["open"][1]
+    # "loads exactly that decoded text": the documented loading rules (C03's, stated on msdparser's tokens) applied to the text-mode contents
+    doc = doc_loaded(c, F.text_mode_decode(data, encs[first]))
+    if doc is not None and o["open"][1][1] != doc:
+        return "open() loaded %s..., the loading rules on the decoded text give %s..." % (str(o["open"][1][1])[:300], str(doc)[:300])
     if o["exc"] is not None:
         return "block exited normally but mutate raised %s" % o["exc"]
     want_names = {inp, out or inp} | ({bak} if bak else set())
@@ -283,9 +287,25 @@ def oracle(c, o):
         return "output file does not parse to the simfile at block exit: %s vs %s" % (str(o.get("out_parses_to"))[:200], str(o["exit"])[:200])
     if bak and o.get("bak_parses_to") != ["ok", o["entry"]]:
         return "backup file does not parse to the simfile at block entry"
+    written = F.text_mode_decode(bytes.fromhex(files[out or inp]), encs[first])
+    docw = doc_loaded(c, written) if written is not None else None
+    if docw is not None and o.get("out_parses_to") != ["ok", docw]:
+        return "the written file loads as %s..., the loading rules on its text give %s..." % (str(o.get("out_parses_to"))[:300], str(docw)[:300])
     if o.get("idempotent") is not True:
         return "a no-op mutate on the written file changed its bytes (%s)" % o.get("idempotent")
     return None
+
+
+def doc_loaded(c, text):
+    """the object the documented rules build from this text in the format the file name says; None when the tokenizer rejects the text"""
+    from msdparser import parse_msd
+    from . import c03
+    try:
+        ps = [list(x.components) for x in parse_msd(string=text, ignore_stray_text=False)]
+    except Exception:
+        return None
+    r = c03.doc_ssc(ps) if c["fmt"] == "ssc" else c03.doc_sm(ps)
+    return r[1] if r[0] == "ok" else None
 
 
 def nontrivial(c, o):
